@@ -153,6 +153,8 @@ fn run(ctx: &mut Ctx) {
         let fill = rng.u16();
         let (Some(mut a), Some(mut b), Some(mut c)) = (mk(&prog.text, real, fill, &kbd), mk(&prog.text, real, fill, &kbd), mk(&prog.text, real, fill, &kbd)) else { ctx.count("not-assembled"); return };
         // statement addresses for breakpoints
+        // the instruction counter is a public field: start it near the wrap-around point in some cases
+        if rng.chance(1, 5) { let c0 = *rng.pick(&[u64::MAX - 2, u64::MAX - 40, u64::MAX, 1u64 << 63]); a.sim.instructions_run = c0; b.sim.instructions_run = c0; c.sim.instructions_run = c0; }
         let labels: Vec<u16> = (0x3000..0x3000 + prog.stmts.iter().map(|s| s.k.size()).sum::<u32>() as u16).collect();
         let mut bps: Vec<Bp> = vec![];
         let ncalls = 1 + rng.usize(12);
@@ -167,7 +169,7 @@ fn run(ctx: &mut Ctx) {
             if rng.chance(1, 6) && !bps.is_empty() { let i = rng.usize(bps.len()); let bp = bps.remove(i); a.sim.breakpoints.remove(&bp.to_crate()); hist.push(format!("remove {bp:?}")); }
             let mut armed = false;
             if rng.chance(1, 6) { let k = rng.below(40); *a.arm.lock().unwrap() = Some(k); *b.arm.lock().unwrap() = Some(k); armed = true; hist.push(format!("device clears MCR at poll {k}")); }
-            let call = match rng.below(12) { 0 | 1 => Call::Run, 2 | 3 => Call::Limit(*rng.pick(&[0u64, 1, 2, 5, 50, 1000])), 4 => Call::WhileStop(1 + rng.below(30)), 5 => Call::WhileClearMcr(1 + rng.below(30)), 6 | 7 => Call::StepOver, 8 | 9 => Call::StepOut, _ => Call::StepIn };
+            let call = match rng.below(12) { 0 | 1 => Call::Run, 2 | 3 => Call::Limit(*rng.pick(&[0u64, 1, 2, 5, 50, 1000, u64::MAX, u64::MAX - 3, 1 << 63])), 4 => Call::WhileStop(1 + rng.below(30)), 5 => Call::WhileClearMcr(1 + rng.below(30)), 6 | 7 => Call::StepOver, 8 | 9 => Call::StepOut, _ => Call::StepIn };
             hist.push(format!("{call:?}"));
             ctx.eval();
             let case = || Json::obj().set("program", prog.text.as_str()).set("real_traps", real).set("kbd", format!("{kbd:?}")).set("fill", fill).set("history", Json::Arr(hist.iter().map(|h| Json::from(h.as_str())).collect()));
